@@ -52,6 +52,15 @@ rendered as XML text (own renderer) with ONE element text / attribute written at
 text, `0`, maximum, `-1`, a dateTime without seconds / date only / at the epoch / before it / in year 9999, `dnskey`, `48`, `DS` ...)
 through `request_from_xml` + `validate_request`; there the independent reading is ElementTree + XML-Schema lexical rules (`read_field`), and
 the honest value written differently (white space around an element text, `Z` for `+00:00`) is a control that must be accepted.
+The MULTISET of signers versus the set of keys (`signer_multiset_variants`, `second_signature`): on every honest bundle of two or three keys, and at
+every bundle position of the whole requests (every bundle that holds two or more keys), the bundle carries AS MANY OR MORE signatures as it has keys
+-- every one valid and made by a key of the bundle (checked with the independent verifier) -- while one key made none of them: key j's signature is
+replaced by a SECOND signature of key a at every ordered pair (a, j), distinct from a's first one in a stated field (inception / expiration one second
+later, another original TTL) or, for ECDSA, in the randomness alone (the same octets signed again); key a signs three times and key j not at all (more
+signatures than keys); key a alone signs n and n + 1 times; key a's signature stands twice VERBATIM in place of key j's (a list keeps both, a real
+set collapses them: the control that takes the ordinary "fewer signatures than keys" path).  Presented in exact order (lists) and as real sets.  Each
+must be REFUSED with the proof-of-possession violation -- key j never proved possession, however many signatures there are -- judged by construction,
+by the independent oracle ("every key has a signature" is a statement about the SET of signers, not about a count) and against the model.
 State carried between requests (`pair_stream`): request A, then request B in the SAME process (B re-using A's identifiers
 with a signature missing / other key material / other signers / a same-tag stranger key; A tampered and B honest; B == A);
 B's verdict must be the property's, the model's, and the verdict of a FRESH process that sees B alone.
@@ -419,6 +428,73 @@ def degenerate_key_fields(k0: dict[str, Any]) -> list[tuple[str, dict[str, Any]]
     return out
 
 
+SECOND_SIGNATURE_HOWS = ["inception+1s", "expiration+1s", "original-ttl", "same-fields-again"]
+
+
+def second_signature(tk: Any, key: dict[str, Any], keys: list[dict[str, Any]], first: dict[str, Any], how: str) -> dict[str, Any]:
+    """ANOTHER valid signature by the key that made `first`, over the same complete key set: it differs from `first` in one of the
+    signature's own stated fields (inception / expiration one second later, another original TTL) or -- `same-fields-again` -- in nothing
+    stated at all: the key signs the very same octets once more, which gives other signature octets with ECDSA (fresh randomness) and
+    the identical signature with RSA PKCS#1 v1.5 (deterministic; then it is a verbatim duplicate, which a set collapses)."""
+    kw: dict[str, Any] = {"inc": first["inc"], "exp": first["exp"], "ttl": first["ttl"], "ottl": first["ottl"]}
+    if how == "inception+1s":
+        kw["inc"] += SEC
+    elif how == "expiration+1s":
+        kw["exp"] += SEC
+    elif how == "original-ttl":
+        kw["ttl"] = kw["ottl"] = 3600 if first["ottl"] != 3600 else 7200
+    else:
+        assert how == "same-fields-again"
+    return sign(tk, key, keys, **kw)
+
+
+def signer_multiset_variants(keys: list[dict[str, Any]], sigs: list[dict[str, Any]], tks: list[Any], rot: int = 0, dense: bool = True) -> list[tuple[str, list[dict[str, Any]], dict[str, Any]]]:
+    """(name, signatures, facts): the MULTISET of signers versus the set of keys.  `sigs[i]` is the honest signature of `keys[i]` (private half
+    `tks[i]`) over the whole key set.  Every list returned holds only VALID signatures by keys of the bundle, AT LEAST AS MANY as the
+    bundle has keys (except where a set collapses a verbatim duplicate), and yet some key made none of them -- it never proved possession,
+    so the bundle must be refused ("each key is accompanied by a signature made with its own private key"):
+      * replaced:      the signature of key j is replaced by a second, distinct signature of key a (every ordered pair (a, j); distinct by a stated
+                       field, or for ECDSA by randomness alone) -- as many signatures as keys;
+      * surplus:       the signature of key j is missing while key a signs three times -- more signatures than keys;
+      * one-signer:    key a alone signs, n and n + 1 times (n = number of keys);
+      * duplicate:     the signature of key a twice, verbatim, in place of key j's (a list keeps both, a set collapses them)."""
+    n = len(keys)
+    out: list[tuple[str, list[dict[str, Any]], dict[str, Any]]] = []
+    if n < 2:
+        return out
+    hows = SECOND_SIGNATURE_HOWS
+    pairs = [(a, j) for a in range(n) for j in range(n) if a != j]
+    for pi, (a, j) in enumerate(pairs):
+        # every way of making the second signature at the first pair (dense) / one way, rotating, at the others
+        for how in (hows if (dense and pi == 0) else [hows[(rot + pi) % len(hows)]]):
+            second = second_signature(tks[a], keys[a], keys, sigs[a], how)
+            verbatim = second["sig"] == sigs[a]["sig"] and how == "same-fields-again"
+            new = [dict(s) for s in sigs]
+            new[j] = second
+            out.append((f"replaced:{how}{'(=verbatim,RSA)' if verbatim else ''}:by{a}for{j}", new, {"signatures": n, "keys": n, "signer": a, "without_signature": j, "verbatim": verbatim}))
+    a, j = pairs[rot % len(pairs)]
+    extra = [second_signature(tks[a], keys[a], keys, sigs[a], h) for h in hows[:2]]
+    out.append((f"surplus:three-by{a}-none-by{j}", [dict(s) for i, s in enumerate(sigs) if i != j] + extra, {"signatures": n + 1, "keys": n, "signer": a, "without_signature": j, "verbatim": False}))
+    if dense:
+        for cnt in (n, n + 1):
+            more = [dict(sigs[a])] + [sign(tks[a], keys[a], keys, inc=sigs[a]["inc"] + d * SEC, exp=sigs[a]["exp"], ttl=sigs[a]["ttl"], ottl=sigs[a]["ottl"]) for d in range(1, cnt)]
+            out.append((f"one-signer:{cnt}-signatures-all-by{a}", more, {"signatures": cnt, "keys": n, "signer": a, "without_signature": "all others", "verbatim": False}))
+    new = [dict(s) for s in sigs]
+    new[j] = dict(sigs[a])
+    out.append((f"duplicate:verbatim:by{a}for{j}", new, {"signatures": n, "keys": n, "signer": a, "without_signature": j, "verbatim": True}))
+    return out
+
+
+def every_signature_valid(case: dict[str, Any]) -> bool:
+    """independent (dnspython + `cryptography`): every signature of the bundle names a key of the bundle and verifies under it over the whole key set"""
+    by_id = {k["id"]: k for k in case["keys"]}
+    for s in case["sigs"]:
+        tbs = dns_tbs(s, case["keys"])
+        if s["id"] not in by_id or tbs is None or not crypto_verify(by_id[s["id"]], tbs, base64.b64decode(s["sig"])):
+            return False
+    return True
+
+
 def variants(r: Any, case: dict[str, Any], tks: list[Any], tier: str, heavy: bool) -> list[tuple[str, dict[str, Any]]]:
     """(tag, case).  tag prefix: honest / control (must be accepted), tamper (must be rejected)."""
     import keys as fx
@@ -566,6 +642,13 @@ def variants(r: Any, case: dict[str, Any], tks: list[Any], tier: str, heavy: boo
     bad = dict(extra, sig=flip(extra["sig"], 9))
     c["sigs"].append(bad)
     out.append(("tamper:additional-invalid-signature", c))
+    # --- the MULTISET of signers versus the set of keys: as many (or more) valid signatures as keys, all by keys of the bundle, and yet one
+    # key made none of them -- presented in exact order (lists) and as real sets (which collapse a verbatim duplicate)
+    for name, sigs2, _facts in signer_multiset_variants(case["keys"], case["sigs"], tks, rot=r.randrange(12), dense=True):
+        c = clone(case)
+        c["sigs"] = sigs2
+        out.append((f"tamper:signer-multiset:{name}", c))
+        out.append((f"tamper:signer-multiset:{name}:as-set", dict(clone(c), as_set=True)))
     # --- the key set
     pool = fixture_pool()
     present = {k["pk"] for k in case["keys"]}
@@ -772,6 +855,16 @@ def tampered_requests(r: Any, bundles: list[dict[str, Any]], members: list[tuple
     nb = len(bundles)
     positions = list(range(nb)) if (tier == "thorough" or nb <= 4) else sorted({0, 1, nb // 2, nb - 2, nb - 1})
     for b in positions:
+        if len(bundles[b]["keys"]) >= 2:
+            # the MULTISET of signers versus the set of keys, at this bundle position: as many (or more) valid signatures as the bundle has keys, all by
+            # keys of the bundle, one key without any (its signature replaced by a second, distinct signature of another key; another key signing
+            # three times; a verbatim duplicate, which the set collapses)
+            ks = bundles[b]["keys"]
+            aligned = [next(x for x in bundles[b]["sigs"] if x["id"] == k["id"]) for k in ks]
+            for name, sigs2, f in signer_multiset_variants(ks, aligned, [members[m][0] for m in bundles[b]["members"]], rot=b, dense=False):
+                c = clone_request(bundles)
+                c[b]["sigs"] = sigs2
+                out.append((f"signer-multiset:{name}", b, bundles[b]["members"][f["without_signature"]], c))
         for slot, ki in enumerate(bundles[b]["members"]):
             ident = bundles[b]["keys"][slot]["id"]
             si = next(i for i, sg in enumerate(bundles[b]["sigs"]) if sg["id"] == ident)
@@ -1400,7 +1493,11 @@ def run(tier: str, driver_ok: bool) -> Result:
         "honest bundles of 1..3 fixture keys (RSA 1024/2048/3072/4096, exponents 3/17/65537/2^32+1/odd; ECDSA P-256/P-384; mixed), "
         "independently signed (dnspython TBS); all orders of keys x signatures; single-bit flips of a key (sample / thorough: all bits of "
         "a 1024-bit key), of every signed field, of signature octets; flags/protocol/algorithm; every omission and misattribution; key set "
-        "changes; own-key-only and non-canonical signing; controls on unsigned fields; multi-bundle requests through validate_request; "
+        "changes; own-key-only and non-canonical signing; controls on unsigned fields; the multiset of signers versus the set of keys (as many or more VALID "
+        "signatures as keys, all by keys of the bundle, one key without any: its signature replaced by a second signature of another key -- distinct by "
+        "inception / expiration / original TTL or by ECDSA randomness alone -- at every ordered pair of keys, one key signing three times, one key alone "
+        "signing n and n+1 times, a verbatim duplicate; as lists and as sets; on every 2- and 3-key bundle and at every bundle position of the whole "
+        "requests); multi-bundle requests through validate_request; "
         "whole requests of 2..9 bundles (quick: 2,3,4,9 and one of 5..8) in ZSK-roll / same-two-keys / sliding-window / three-keys / random "
         "layouts with keys re-appearing under one identifier and per-bundle signature times, one signature omitted / misattributed (unknown, "
         "other key) / bit-flipped / taken from another bundle / made by another key at every (bundle position, key) pair (quick: first, second, "
@@ -1625,6 +1722,16 @@ def run(tier: str, driver_ok: bool) -> Result:
             res.sample({"tag": tag, "keys": [{**k, "pk": k["pk"][:20] + "..."} for k in case["keys"]], "sigs": [{**s, "sig": s["sig"][:20] + "..."} for s in case["sigs"]],
                         "impl": {"validate_signatures": vs, "check_proof_of_possession": pop}, "verifier_calls_recorded": len(ev["records"]),
                         "model": None if m is None else {k: m.get(k) for k in ("validate_signatures", "check_proof_of_possession")}, "expected_accept": want, "independent_oracle_accepts": indep})
+        if kind[:2] == ["tamper", "signer-multiset"]:
+            # the class is only what it claims to be if every signature presented is VALID (names a key of the bundle, verifies under it over the
+            # whole key set -- by the independent verifier) and some key has none: then only "every key has signed" can refuse the bundle
+            presented = len({json.dumps(s, sort_keys=True) for s in case["sigs"]}) if case.get("as_set") else len(case["sigs"])
+            res.bump(f"signer-multiset:bundle:{kind[2]}:signatures-presented{'<' if presented < len(case['keys']) else '==' if presented == len(case['keys']) else '>'}keys:{'as-set' if case.get('as_set') else 'exact-order-list'}")
+            res.bump("signer-multiset:bundle:signer-algorithm:" + str(case["sigs"][0]["alg"]))
+            signers = {s["id"] for s in case["sigs"]}
+            if not every_signature_valid(case) or all(k["id"] in signers for k in case["keys"]):
+                res.violation("harness inconsistency: a signer-multiset variant must hold valid signatures only and leave one key without any (generator wrong)", rcase, key="oracle:signer-multiset:vacuous")
+            res.bump("signer-multiset:bundle:/repo:validate_signatures:" + ("ok" if "ok" in vs else next(iter(vs.values()))) + ":check_proof_of_possession:" + ("ok" if "ok" in pop else next(iter(pop.values()))))
         # (a) and (b): the property on the implementation
         if indep != want:
             res.violation("harness inconsistency: independent oracle and construction disagree (generator or oracle wrong)", rcase, key="oracle:" + kind[1], expected_accept=want, independent_accepts=indep)
@@ -1746,6 +1853,15 @@ def judge_request(res: Result, tag: str, case: dict[str, Any], ev: dict[str, Any
         res.violation("harness inconsistency: independent oracle and construction disagree (generator or oracle wrong)", rcase, key=f"oracle:{stream}:{kind[1]}", expected_accept=want, independent_accepts=indep)
     if "source" in facts:
         res.bump(f"roll:{kind[1]}:{kind[2]}:" + ("source-before-target" if facts["source_before_target"] else "source-after-target"))
+    if kind[1] == "signer-multiset":
+        b, nb = facts["bundle"], facts["nb"]
+        bad = case["bundles"][b]
+        presented = len({json.dumps(s, sort_keys=True) for s in bad["sigs"]})  # requests hold real sets
+        res.bump(f"signer-multiset:request:{kind[2]}:signatures-presented{'<' if presented < len(bad['keys']) else '==' if presented == len(bad['keys']) else '>'}keys")
+        res.bump("signer-multiset:request:bundle-position:" + ("first" if b == 0 else "last" if b == nb - 1 else "inner"))
+        signers = {s["id"] for s in bad["sigs"]}
+        if not all(every_signature_valid(c) for c in case["bundles"]) or all(k["id"] in signers for k in bad["keys"]):
+            res.violation("harness inconsistency: a signer-multiset variant must hold valid signatures only and leave one key without any (generator wrong)", rcase, key="oracle:roll:signer-multiset:vacuous")
     if "tz" in case:
         res.bump("tz:request-under:" + case["tz"])
     # a rule that runs BEFORE proof of possession inside validate_request and legitimately objects to this input class first (an identifier
